@@ -98,7 +98,10 @@ func H_C01_roundtrip() {
 			}
 		}
 		if !e.Right().Tip() {
-			switch pick(sxName2("label", inner), 4, inner+1) {
+			switch pick(sxName2("label", inner), 5, inner+1) {
+			case 4:
+				// a legal inner name that looks like the start of support/p-value
+				e.Right().SetName("0.5/x" + itoa(inner))
 			case 1:
 				e.Right().SetName("in" + itoa(inner))
 			case 2:
